@@ -30,6 +30,9 @@ pub enum St {
     BranchRewound,
     BranchAmended,
     RefDeleted,
+    /// `refs/heads/feat` is deleted and `refs/heads/feat/sub` created (a file/directory conflict for a
+    /// loose-ref store unless the deletion is applied first), validly signed
+    BranchBecomesDirectory,
     // invalid / odd offers
     SigFlipped,
     Rekeyed,
@@ -45,7 +48,7 @@ pub enum St {
     GarbageBlob,
 }
 
-const UNUSUAL: &[St] = &[St::TagRecreated, St::TagMadeLightweight, St::BranchRewound, St::BranchAmended, St::RefDeleted];
+const UNUSUAL: &[St] = &[St::TagRecreated, St::TagMadeLightweight, St::BranchRewound, St::BranchAmended, St::RefDeleted, St::BranchBecomesDirectory];
 
 const TAMPERS: &[St] = &[
     St::SigFlipped, St::Rekeyed, St::RootOtherRepo, St::RootOmitted, St::NonCanonicalBlob, St::UnsignedExtraRef, St::SignedRefMoved,
@@ -127,6 +130,7 @@ fn build(sc: &Scenario, tag: u64) -> World {
         let c1 = fx::commit(w.repo.raw(), &format!("c1-{i}"), &[base]);
         fx::set_ref(w.repo.raw(), &k, "refs/heads/master", c1);
         fx::set_ref(w.repo.raw(), &k, "refs/tags/v1", base);
+        fx::set_ref(w.repo.raw(), &k, "refs/heads/feat", c1);
         w.sign(i);
         let c2 = fx::commit(w.repo.raw(), &format!("c2-{i}"), &[c1]);
         fx::set_ref(w.repo.raw(), &k, "refs/heads/master", c2);
@@ -222,6 +226,12 @@ impl World {
                 let p = raw.find_commit(master).unwrap().parent_id(0).unwrap();
                 let c = fx::commit(&raw, &format!("amend-{i}-{}", rng.u32()), &[p]);
                 fx::set_ref(&raw, &k, "refs/heads/master", c);
+                self.sign(i);
+            }
+            St::BranchBecomesDirectory => {
+                fx::del_ref(&raw, &k, "refs/heads/feat");
+                let c = fx::commit(&raw, &format!("dir-{i}-{}", rng.u32()), &[master]);
+                fx::set_ref(&raw, &k, "refs/heads/feat/sub", c);
                 self.sign(i);
             }
             St::RefDeleted => {
